@@ -210,74 +210,172 @@ impl Plan {
 }
 
 // ---------------------------------------------------------------------------------------------
-// Gherkin text generation
+// Feature construction: the `gherkin::Feature` value is built directly (the Gherkin text
+// parser is not part of any claimed property), together with the equivalent Gherkin text
+// whose line numbers the value's positions carry.
 
-fn tags_line(indent: &str, tags: &[String]) -> String {
-    if tags.is_empty() {
-        String::new()
-    } else {
-        format!("{indent}{}\n", tags.iter().map(|t| format!("@{t}")).collect::<Vec<_>>().join(" "))
-    }
+use cucumber::gherkin as gh;
+
+struct Emit {
+    text: String,
+    line: usize,
 }
 
-fn step_lines(out: &mut String, indent: &str, steps: &[StepSpec], suffix: &str) {
-    for s in steps {
-        out.push_str(&format!("{indent}{} {}{suffix}\n", s.kw.as_str(), s.text));
-        if let Some(d) = &s.doc {
-            out.push_str(&format!("{indent}  \"\"\"\n"));
-            for l in d.lines() {
-                out.push_str(&format!("{indent}  {l}\n"));
+impl Emit {
+    fn ln(&mut self, s: &str) -> usize {
+        self.text.push_str(s);
+        self.text.push('\n');
+        self.line += 1;
+        self.line
+    }
+    fn tags(&mut self, indent: &str, tags: &[String]) {
+        if !tags.is_empty() {
+            let l = format!("{indent}{}", tags.iter().map(|t| format!("@{t}")).collect::<Vec<_>>().join(" "));
+            self.ln(&l);
+        }
+    }
+    fn steps(&mut self, indent: &str, steps: &[StepSpec], suffix: &str) -> Vec<gh::Step> {
+        let mut out = Vec::new();
+        for s in steps {
+            let line = self.ln(&format!("{indent}{} {}{suffix}", s.kw.as_str(), s.text));
+            if let Some(d) = &s.doc {
+                self.ln(&format!("{indent}  \"\"\""));
+                for l in d.lines() {
+                    self.ln(&format!("{indent}  {l}"));
+                }
+                self.ln(&format!("{indent}  \"\"\""));
             }
-            out.push_str(&format!("{indent}  \"\"\"\n"));
+            out.push(gh::Step {
+                keyword: format!("{} ", s.kw.as_str()),
+                ty: match s.kw {
+                    Kw::Given => gh::StepType::Given,
+                    Kw::When => gh::StepType::When,
+                    Kw::Then => gh::StepType::Then,
+                },
+                value: format!("{}{suffix}", s.text),
+                docstring: s.doc.as_ref().map(|d| format!("\n{d}\n")),
+                table: None,
+                span: gh::Span::default(),
+                position: gh::LineCol { line, col: indent.len() + 1 },
+            });
         }
+        out
     }
-}
-
-fn scenario_text(out: &mut String, indent: &str, s: &ScenarioSpec) {
-    out.push('\n');
-    out.push_str(&tags_line(indent, &s.tags));
-    match &s.examples {
-        None => {
-            out.push_str(&format!("{indent}Scenario: {}\n", s.name));
-            step_lines(out, &format!("{indent}  "), &s.steps, "");
+    fn background(&mut self, indent: &str, steps: &[StepSpec]) -> Option<gh::Background> {
+        if steps.is_empty() {
+            return None;
         }
-        Some(vals) => {
-            out.push_str(&format!("{indent}Scenario Outline: {} <v>\n", s.name));
-            step_lines(out, &format!("{indent}  "), &s.steps, " <v>");
-            out.push('\n');
-            out.push_str(&format!("{indent}  Examples:\n{indent}    | v |\n"));
-            for v in vals {
-                out.push_str(&format!("{indent}    | {v} |\n"));
+        self.ln("");
+        let line = self.ln(&format!("{indent}Background:"));
+        let steps = self.steps(&format!("{indent}  "), steps, "");
+        Some(gh::Background {
+            keyword: "Background".into(),
+            name: String::new(),
+            description: None,
+            steps,
+            span: gh::Span::default(),
+            position: gh::LineCol { line, col: indent.len() + 1 },
+        })
+    }
+    fn scenario(&mut self, indent: &str, s: &ScenarioSpec) -> gh::Scenario {
+        self.ln("");
+        self.tags(indent, &s.tags);
+        match &s.examples {
+            None => {
+                let line = self.ln(&format!("{indent}Scenario: {}", s.name));
+                let steps = self.steps(&format!("{indent}  "), &s.steps, "");
+                gh::Scenario {
+                    keyword: "Scenario".into(),
+                    name: s.name.clone(),
+                    description: None,
+                    steps,
+                    examples: Vec::new(),
+                    tags: s.tags.clone(),
+                    span: gh::Span::default(),
+                    position: gh::LineCol { line, col: indent.len() + 1 },
+                }
+            }
+            Some(vals) => {
+                let line = self.ln(&format!("{indent}Scenario Outline: {} <v>", s.name));
+                let steps = self.steps(&format!("{indent}  "), &s.steps, " <v>");
+                self.ln("");
+                let ex_line = self.ln(&format!("{indent}  Examples:"));
+                let t_line = self.ln(&format!("{indent}    | v |"));
+                let mut rows = vec![vec!["v".to_owned()]];
+                for v in vals {
+                    self.ln(&format!("{indent}    | {v} |"));
+                    rows.push(vec![v.clone()]);
+                }
+                gh::Scenario {
+                    keyword: "Scenario Outline".into(),
+                    name: format!("{} <v>", s.name),
+                    description: None,
+                    steps,
+                    examples: vec![gh::Examples {
+                        keyword: "Examples".into(),
+                        name: None,
+                        description: None,
+                        table: Some(gh::Table {
+                            rows,
+                            span: gh::Span::default(),
+                            position: gh::LineCol { line: t_line, col: indent.len() + 5 },
+                        }),
+                        tags: Vec::new(),
+                        span: gh::Span::default(),
+                        position: gh::LineCol { line: ex_line, col: indent.len() + 3 },
+                    }],
+                    tags: s.tags.clone(),
+                    span: gh::Span::default(),
+                    position: gh::LineCol { line, col: indent.len() + 1 },
+                }
             }
         }
     }
 }
 
 impl FeatureSpec {
-    pub fn gherkin(&self) -> String {
-        let mut out = String::new();
-        out.push_str(&tags_line("", &self.tags));
-        out.push_str(&format!("Feature: {}\n", self.name));
-        if !self.background.is_empty() {
-            out.push_str("\n  Background:\n");
-            step_lines(&mut out, "    ", &self.background, "");
-        }
-        for s in &self.scenarios {
-            scenario_text(&mut out, "  ", s);
-        }
+    /// Builds the (unexpanded) `gherkin::Feature` value and its Gherkin text.
+    pub fn build(&self) -> (gh::Feature, String) {
+        let mut e = Emit { text: String::new(), line: 0 };
+        e.tags("", &self.tags);
+        let line = e.ln(&format!("Feature: {}", self.name));
+        let background = e.background("  ", &self.background);
+        let scenarios = self.scenarios.iter().map(|s| e.scenario("  ", s)).collect();
+        let mut rules = Vec::new();
         for r in &self.rules {
-            out.push('\n');
-            out.push_str(&tags_line("  ", &r.tags));
-            out.push_str(&format!("  Rule: {}\n", r.name));
-            if !r.background.is_empty() {
-                out.push_str("\n    Background:\n");
-                step_lines(&mut out, "      ", &r.background, "");
-            }
-            for s in &r.scenarios {
-                scenario_text(&mut out, "    ", s);
-            }
+            e.ln("");
+            e.tags("  ", &r.tags);
+            let rline = e.ln(&format!("  Rule: {}", r.name));
+            let rbg = e.background("    ", &r.background);
+            let scs = r.scenarios.iter().map(|s| e.scenario("    ", s)).collect();
+            rules.push(gh::Rule {
+                keyword: "Rule".into(),
+                name: r.name.clone(),
+                description: None,
+                background: rbg,
+                scenarios: scs,
+                tags: r.tags.clone(),
+                span: gh::Span::default(),
+                position: gh::LineCol { line: rline, col: 3 },
+            });
         }
-        out
+        let f = gh::Feature {
+            keyword: "Feature".into(),
+            name: self.name.clone(),
+            description: None,
+            background,
+            scenarios,
+            rules,
+            tags: self.tags.clone(),
+            span: gh::Span::default(),
+            position: gh::LineCol { line, col: 1 },
+            path: self.path.as_ref().map(std::path::PathBuf::from),
+        };
+        (f, e.text)
+    }
+
+    pub fn gherkin(&self) -> String {
+        self.build().1
     }
 }
 
